@@ -301,6 +301,8 @@ def rule_own_context(ctx):
         "SHOW IMPORTED KEYS": ("CUR_DB",), "COMMENT ON TABLE": ("CUR_DB", "CUR_SCHEMA"),
         "CREATE TABLE varchar+comment": ("CUR_DB", "CUR_SCHEMA"), "ALTER TABLE ADD COLUMN": ("CUR_DB", "CUR_SCHEMA"),
         "ALTER TABLE SET COMMENT": ("CUR_DB", "CUR_SCHEMA"),
+        # a schema named without its database is this session's schema of that name, not every database's
+        "SHOW TABLES IN SCHEMA": ("CUR_DB", "S"),
     }
     # the same statements at the two other qualification levels: a given part is used as given, a missing one comes
     # from the context ("an unqualified or schema-qualified object name ... denotes exactly the object the fully
